@@ -1,13 +1,17 @@
 #!/bin/sh
 # Runs every seeded change against the check of its property (quick tier); prints one line each.
-bak=$(mktemp -d); cp -r /verif/evidence $bak/
-trap 'git -C /repo checkout -- . ; rm -rf /verif/evidence; cp -r $bak/evidence /verif/evidence; rm -rf $bak' EXIT INT TERM
-for d in /verif/seeded/*/; do
+# Works on ${VERIF_REPO:-/repo} (inside `vp run --with-repo` pass VERIF_REPO=$VP_RUN_REPO: the snapshot is patched, /repo is untouched).
+R=${VERIF_REPO:-/repo}
+V=$(cd "$(dirname "$0")/.." && pwd)
+bak=$(mktemp -d); cp -r $V/evidence $bak/
+trap 'git -C $R checkout -- . ; rm -rf $V/evidence; cp -r $bak/evidence $V/evidence; rm -rf $bak' EXIT INT TERM
+cd $V
+for d in $V/seeded/*/; do
   name=$(basename $d)
   prop=$(python3 -c "import json;print(json.load(open('$d/meta.json'))['property'])")
-  if ! git -C /repo apply --check $d/patch.diff 2>/dev/null; then echo "$name $prop PATCH-DOES-NOT-APPLY"; continue; fi
-  git -C /repo apply $d/patch.diff
-  out=$(./check $prop --tier quick 2>&1); rc=$?
-  git -C /repo checkout -- .
+  if ! git -C $R apply --check $d/patch.diff 2>/dev/null; then echo "$name $prop PATCH-DOES-NOT-APPLY"; continue; fi
+  git -C $R apply $d/patch.diff
+  out=$(VERIF_REPO=$R ./check $prop --tier quick 2>&1); rc=$?
+  git -C $R checkout -- .
   echo "$name $prop rc=$rc violations=$(echo "$out" | grep -c '^VIOLATION')"
 done
